@@ -18,7 +18,7 @@ CHECKS = {
              'is decoded by the real parse.message and compared field by field with the message it denotes. Lines are also sent through the parser loop (strings of 100 to 70000 characters) and through the real command line in file mode (non-ASCII strings).',
         ref='3/C01', engine='PROD'),
     'C02': dict(
-        technique='explicit-state BFS over well-formed message histories executed on the real log pipeline, '
+        technique='explicit-state BFS over well-formed message histories executed on the real log pipeline (and, as closures, on the real GDB plugin over a GDB model), '
                   'merged on a reference object table, oracle on every transition',
         text='Well-formed single-connection histories (create by request/event/bind to two interfaces, delete_id, use, mention, foreign delete_id; client and server side, three timestamp shapes, with and without a leading get_registry) are explored to the stated depth merged on a reference object table AND unmerged to a smaller depth; every output line must carry the labels the reference predicts, the object table is compared through the Connection interface in every state; identifiers closed and reopened are covered by a BFS over the connection-id interface. Further history variants: stamps that wrap, microsecond-grained stamps, decorated creation messages, the top of the server id range, creation by an event on a destroyed object; one chain of 520/1100 reuses of an id. The same histories (BFS depth 4/6 client, 3/5 server, chains of reuses and of mentions) are also delivered as libwayland closures to the real plugin on the GDB model: labels on every line and the object table at the end; there the mentioning message has a number, an object of another interface and a fixed value before the object that matters.',
         ref='3/C02', engine='BFS'),
